@@ -10,6 +10,8 @@ From Coq Require Import ZArith List Bool Permutation.
 Import ListNotations.
 From Verif Require Import Model.Inventory Model.Balance Proofs.InventoryProofs.
 From Verif Require Model.Inventory Model.PrimsEnvLedger Gen.SrcEnvLedger Proofs.SrcEnvLedger.
+From Verif Require Model.PrimsAgg Model.PrimsAggInv Gen.SrcAggInv Proofs.SrcAggInv.
+From Verif Require Model.PrimsInvFuncs Proofs.SrcInvFuncs.
 Open Scope Z_scope.
 
 (* ---------------- the finite-map view is faithful ---------------- *)
@@ -245,6 +247,33 @@ Example C12_ex_lazy_skips_rows :
   = [[ [((1, None), 1)] ]; []; [ [((1, None), 101)] ]].
 Proof. reflexivity. Qed.
 
+(* ---------------- only() / empty() / filter_currency() on inventories ---------------- *)
+(* only(c, .) commutes with sum: the total of currency c in sum(position) is the sum of the numbers of the positions
+   held in c (whatever their cost), and the Amount carries c even when nothing is held *)
+Theorem C12_only_commutes : forall c l,
+  inventory_only c (sum_pos l) = (zsum (fun p => if pcur p =? c then pnum p else 0) l, c).
+Proof. exact SrcInvFuncs.only_sum_pos. Qed.
+Print Assumptions C12_only_commutes.
+
+(* filter_currency(inv, c) keeps exactly the positions of currency c, in order (on the well-formed inventories the
+   code builds); as a finite map it is inv on the keys in c and nothing elsewhere; the result is well formed *)
+Theorem C12_filter_currency_spec : forall inv c, wf inv ->
+  inventory_filter_currency inv c = filter (fun e : entry => fst (fst e) =? c) inv
+  /\ (forall k, lookup (inventory_filter_currency inv c) k = if fst k =? c then lookup inv k else 0)
+  /\ wf (inventory_filter_currency inv c).
+Proof.
+  intros inv c H. split; [apply SrcInvFuncs.inventory_filter_currency_wf; exact H|].
+  split; [intro k; apply SrcInvFuncs.lookup_inventory_filter_currency; exact H|].
+  apply SrcInvFuncs.wf_inventory_filter_currency.
+Qed.
+Print Assumptions C12_filter_currency_spec.
+
+(* empty(inv): no key at all, i.e. (well-formed inventories hold no zero position) every key nets to zero *)
+Theorem C12_empty_spec : forall inv, wf inv ->
+  (inventory_empty inv = true <-> inv = []) /\ (inventory_empty inv = true <-> forall k, lookup inv k = 0).
+Proof. intros inv H. split; [apply SrcInvFuncs.is_empty_spec|apply SrcInvFuncs.is_empty_lookup; exact H]. Qed.
+Print Assumptions C12_empty_spec.
+
 (* ---- tie by translation: the SOURCE of the `balance` column accessor (the function behind
    PostingsTable.columns['balance'], taken from the live column object) and of Row.__init__, translated into PyMini on
    every run (Gen/SrcLedgerBalance.v), computes [balance_col] / [row_init] - for every Row state (rowid, running
@@ -357,3 +386,146 @@ Example C12_source_envledger_example :
   call_function (fun _ _ => PNone) (prim_envledger price 1 (fun c => c)) envl_convert_position
     [p_price_map; Inv.enc_position p; PInt 3; PNone] = Ok (enc_iamount (165, 3)).
 Proof. split; vm_compute; reflexivity. Qed.
+
+(* ---- tie by translation, group `agginv`: the SOURCE of the aggregators whose state is an Inventory - SumAmount,
+   SumPosition, SumInventory of query_env.py with the allocate / initialize / finalize / __call__ they inherit from
+   query_compile.EvalAggregator, resolved through the MRO of the live classes and translated into PyMini on every run
+   (Gen/SrcAggInv.v) - computes the sums the homomorphism theorems above are stated over (C12_sum_app, C12_sum_perm,
+   C12_partition_total, C12_aggregators_skip_null): run on ONE group the way execute_select drives an aggregate node
+   (initialize, update for every row in table order, finalize, __call__; [run_group], Proofs/SrcAggInv.v) the cell of
+   sum(x) is  sum_position / sum_inventory / sum_amount  of the operand's values on the group's rows, NULLs skipped,
+   starting from a FRESH EMPTY inventory; the node's slot of the store holds it and no other slot changes - for every
+   store, handle, group and values.  `store[self.handle].add_*(value)` is read - update - write back on the slot
+   (rule A10 of harness/vf/src_agginv.py: the accumulator is not aliased); Inventory.add_amount / add_position /
+   add_inventory are Model/Inventory.v's on the encoded values (Model/PrimsAggInv.v); the operand is an opaque pure
+   callable of the row context; dtype() is assumed to return the empty inventory (Gen/SrcAggInv.agginv_dtypes records
+   that a live instance carries beancount's Inventory class). ---- *)
+Import Verif.Model.PrimsAgg Verif.Model.PrimsAggInv Verif.Gen.SrcAggInv Verif.Proofs.SrcAggInv.
+
+(* initialize: a fresh empty inventory in the node's slot, whatever was there *)
+Theorem C12_source_sum_initialize : forall (call_ref : nat -> list pv -> pv) (k : kind) (i kd ko : nat) (value : pv)
+    (slots : list pv),
+  (i < List.length slots)%nat -> call_ref kd [] = Inv.enc_inv [] ->
+  call_method call_ref prims_agginv (c_initialize (kind_class k)) (inv_node i kd ko value) [PList slots] =
+  Ok (inv_node i kd ko PNone, PList (set_nth i (Inv.enc_inv []) slots)).
+Proof. intros call_ref k. destruct k; exact (initialize_src call_ref). Qed.
+Print Assumptions C12_source_sum_initialize.
+
+(* update: the slot becomes Inventory.add_amount / add_position / add_inventory of the slot and the value; NULL skipped *)
+Theorem C12_source_sum_update : forall (call_ref : nat -> list pv -> pv) (k : kind) (i kd ko : nat) (value : pv)
+    (slots : list pv) (b : inventory) (ctx : pv) (v : option operand),
+  (i < List.length slots)%nat -> nth i slots PNone = Inv.enc_inv b ->
+  call_ref ko [ctx] = enc_operand v -> of_kind k [v] ->
+  call_method call_ref prims_agginv (c_update (kind_class k)) (inv_node i kd ko value) [PList slots; ctx] =
+  Ok (inv_node i kd ko value, PList (set_nth i (Inv.enc_inv (add_value b v)) slots)).
+Proof. exact update_src. Qed.
+Print Assumptions C12_source_sum_update.
+
+(* the fold over the rows of a group, for the three classes at once *)
+Theorem C12_source_sum_fold : forall (call_ref : nat -> list pv -> pv) (k : kind) (i kd ko : nat) (value : pv)
+    (slots : list pv) (ctxs : list pv) (ctx : pv) (vals : list (option operand)),
+  (i < List.length slots)%nat -> call_ref kd [] = Inv.enc_inv [] -> operands_on call_ref ko ctxs vals -> of_kind k vals ->
+  run_group call_ref (kind_class k) (inv_node i kd ko value) (PList slots) ctxs ctx =
+  Ok (inv_node i kd ko (Inv.enc_inv (sum_operands vals)),
+      PList (set_nth i (Inv.enc_inv (sum_operands vals)) slots),
+      Inv.enc_inv (sum_operands vals)).
+Proof. exact sum_fold_src. Qed.
+Print Assumptions C12_source_sum_fold.
+
+Theorem C12_source_sum_position : forall (call_ref : nat -> list pv -> pv) (i kd ko : nat) (value : pv)
+    (slots ctxs : list pv) (ctx : pv) (vp : list (option position)),
+  (i < List.length slots)%nat -> call_ref kd [] = Inv.enc_inv [] ->
+  operands_on call_ref ko ctxs (map (option_map OPosition) vp) ->
+  run_group call_ref class_SumPosition (inv_node i kd ko value) (PList slots) ctxs ctx =
+  Ok (inv_node i kd ko (Inv.enc_inv (sum_position vp)), PList (set_nth i (Inv.enc_inv (sum_position vp)) slots),
+      Inv.enc_inv (sum_position vp)).
+Proof. exact sum_position_src. Qed.
+Print Assumptions C12_source_sum_position.
+
+Theorem C12_source_sum_inventory : forall (call_ref : nat -> list pv -> pv) (i kd ko : nat) (value : pv)
+    (slots ctxs : list pv) (ctx : pv) (vi : list (option inventory)),
+  (i < List.length slots)%nat -> call_ref kd [] = Inv.enc_inv [] ->
+  operands_on call_ref ko ctxs (map (option_map OInventory) vi) ->
+  run_group call_ref class_SumInventory (inv_node i kd ko value) (PList slots) ctxs ctx =
+  Ok (inv_node i kd ko (Inv.enc_inv (sum_inventory vi)), PList (set_nth i (Inv.enc_inv (sum_inventory vi)) slots),
+      Inv.enc_inv (sum_inventory vi)).
+Proof. exact sum_inventory_src. Qed.
+Print Assumptions C12_source_sum_inventory.
+
+Theorem C12_source_sum_amount : forall (call_ref : nat -> list pv -> pv) (i kd ko : nat) (value : pv)
+    (slots ctxs : list pv) (ctx : pv) (va : list (option amount)),
+  (i < List.length slots)%nat -> call_ref kd [] = Inv.enc_inv [] ->
+  operands_on call_ref ko ctxs (map (option_map OAmount) va) ->
+  run_group call_ref class_SumAmount (inv_node i kd ko value) (PList slots) ctxs ctx =
+  Ok (inv_node i kd ko (Inv.enc_inv (sum_amount va)), PList (set_nth i (Inv.enc_inv (sum_amount va)) slots),
+      Inv.enc_inv (sum_amount va)).
+Proof. exact sum_amount_src. Qed.
+Print Assumptions C12_source_sum_amount.
+
+(* what was translated: the three classes registered as `sum` over Amount / Position / Inventory, and the class a live
+   instance's dtype is *)
+Theorem C12_source_sum_classes :
+  map fst agginv_classes =
+  [("beanquery.query_env.SumAmount", "sum", "beancount.core.amount.Amount");
+   ("beanquery.query_env.SumPosition", "sum", "beancount.core.position.Position");
+   ("beanquery.query_env.SumInventory", "sum", "beancount.core.inventory.Inventory")]
+  /\ map snd agginv_classes = [kind_class KAmount; kind_class KPosition; kind_class KInventory]
+  /\ map snd agginv_dtypes = [true; true; true]
+  /\ map (fun x => snd (fst x)) agginv_dtypes =
+     ["beancount.core.inventory.Inventory"; "beancount.core.inventory.Inventory"; "beancount.core.inventory.Inventory"].
+Proof. repeat split; reflexivity. Qed.
+Print Assumptions C12_source_sum_classes.
+
+(* Non-vacuity: a store with three slots, the node's handle is 1; a group of four rows whose operand values are a
+   lot of 5, NULL, a sale of 5 from the same lot (the position disappears: zero-removal) and 7 of another currency;
+   contexts are the row numbers, callable 0 is the operand, callable 1 the dtype.  Then the same group through
+   sum(inventory) with a first value that must NOT be adopted: the result is a new value, slot 0 and 2 are untouched. *)
+Example C12_source_sum_example :
+  let lot := Some (mkcost 1000 1 737000 None) in
+  let vals := [Some (mkpos 5 2 lot); None; Some (mkpos (-5) 2 lot); Some (mkpos 7 3 None)] in
+  let call_ref := fun (k : nat) (args : list pv) =>
+    match k, args with
+    | O, [PV (VInt n)] => enc_operand (nth (Z.to_nat n) (map (option_map OPosition) vals) None)
+    | _, _ => Inv.enc_inv []
+    end in
+  run_group call_ref class_SumPosition (inv_node 1 1 0 PNone) (PList [PInt 42; PNone; PInt 43])
+            [PInt 0; PInt 1; PInt 2; PInt 3] (PInt 3)
+  = Ok (inv_node 1 1 0 (Inv.enc_inv [((3, None), 7)]), PList [PInt 42; Inv.enc_inv [((3, None), 7)]; PInt 43],
+        Inv.enc_inv [((3, None), 7)])
+  /\ operands_on call_ref 0 [PInt 0; PInt 1; PInt 2; PInt 3] (map (option_map OPosition) vals)
+  /\ sum_position vals = [((3, None), 7)].
+Proof. vm_compute. repeat split; repeat constructor. Qed.
+
+(* ---- tie by translation: the SOURCE of the BQL functions only(currency, inventory), empty(inventory) and
+   filter_currency(inventory, currency) of query_env.py (Gen/SrcEnvLedger.v: the envlx_ terms, translated on every run;
+   a source outside the fragment is a translator failure since these theorems exist) computes Model/Inventory.v's
+   inventory_only / inventory_empty / inventory_filter_currency, for every inventory and currency, under the
+   primitives of Model/PrimsInvFuncs.v (Inventory.get_currency_units, is_empty, Inventory(iterable), iteration of an
+   inventory = its entries). ---- *)
+Import Verif.Model.PrimsInvFuncs Verif.Proofs.SrcInvFuncs.
+
+Theorem C12_source_only_inventory : forall (call_ref : nat -> list pv -> pv) (c : currency) (i : inventory),
+  call_function call_ref prim_invfuncs envlx_only_inventory [PInt c; Inv.enc_inv i] = Ok (enc_amt (inventory_only c i)).
+Proof. exact only_inventory_src. Qed.
+Print Assumptions C12_source_only_inventory.
+
+Theorem C12_source_empty_inventory : forall (call_ref : nat -> list pv -> pv) (i : inventory),
+  call_function call_ref prim_invfuncs envlx_empty_inventory [Inv.enc_inv i] = Ok (PBool (inventory_empty i)).
+Proof. exact empty_inventory_src. Qed.
+Print Assumptions C12_source_empty_inventory.
+
+Theorem C12_source_filter_currency_inventory : forall (call_ref : nat -> list pv -> pv) (i : inventory) (c : currency),
+  call_function call_ref prim_invfuncs envlx_filter_currency_inventory [Inv.enc_inv i; PInt c] =
+  Ok (Inv.enc_inv (inventory_filter_currency i c)).
+Proof. exact filter_currency_inventory_src. Qed.
+Print Assumptions C12_source_filter_currency_inventory.
+
+Example C12_source_invfuncs_example :
+  let lot := Some (mkcost 1000 1 737000 None) in
+  let inv := [((2, lot), 5); ((3, None), 7); ((2, None), 1)] in
+  let run := call_function (fun _ _ => PNone) prim_invfuncs in
+  run envlx_only_inventory [PInt 2; Inv.enc_inv inv] = Ok (enc_amt (6, 2)) /\
+  run envlx_empty_inventory [Inv.enc_inv inv] = Ok (PBool false) /\
+  run envlx_empty_inventory [Inv.enc_inv []] = Ok (PBool true) /\
+  run envlx_filter_currency_inventory [Inv.enc_inv inv; PInt 2] = Ok (Inv.enc_inv [((2, lot), 5); ((2, None), 1)]).
+Proof. vm_compute. repeat split; reflexivity. Qed.
